@@ -1,4 +1,5 @@
 CONSTANTS
+  SeriesFirst = FALSE
   CommitSeqBeforeWrite = FALSE
   FreezeBeforeMetaFlush = TRUE
   AtomicRound = TRUE
@@ -7,5 +8,5 @@ CONSTANTS
   MaxCrash = 2
   MaxFlush = 3
 SPECIFICATION MCSpec
-INVARIANTS AckNotAhead NoLoss NoReapply FlushedResolves NoIdReuse
+INVARIANTS AckNotAhead NoLoss NoReapply FlushedResolves NoIdReuse SeriesIndexed
 CHECK_DEADLOCK FALSE
